@@ -379,6 +379,13 @@ func main() {
 			add("pattern", Input{Rows: genRows(r), Atoms: in0.Atoms, Chain: ch})
 		}
 	}
+	for round := 0; round < rounds; round++ {
+		atoms := whr.FullAtoms(r)
+		g := whr.NewGen(r, atoms)
+		for _, ch := range g.NegationChains() {
+			add("negation", Input{Rows: genRows(r), Atoms: atoms, Chain: ch})
+		}
+	}
 	budget := 600
 	if a.Tier == "thorough" {
 		budget = 12000
